@@ -410,14 +410,38 @@ pub fn run_src(cap: &mut Capture, c: &SrcCase) -> String {
     run_session(cap, c.stack, c.fuel, &c.inp, c.src.clone(), c.script()).line
 }
 
-const RUNTIME_NOISE: [&str; 6] = [
-    "exception:",
-    "unexpected end of input",
-    "You called a reserved instruction",
-    "Note: Run with",
-    "Halting...",
-    "Error with debugger history",
-];
+/// The shapes of the lines the debugger prints in `--minimal` mode (DESIGN.md Appendix B):
+/// identifier lines `Word::Word` / `CommandError`, values `x1234`, `R3 x1234`, `PC x1234`, `CC 010`,
+/// echo lines `[…]`, and (for the `.fill` sources of these sessions) statement texts `.fill x1234`.
+pub fn is_debugger_line(l: &str) -> bool {
+    let hex4 = |s: &str| s.len() == 4 && s.bytes().all(|b| b.is_ascii_hexdigit());
+    let word = |s: &str| !s.is_empty() && s.bytes().all(|b| b.is_ascii_alphanumeric());
+    if l == "CommandError" {
+        return true;
+    }
+    if let Some((a, b)) = l.split_once("::") {
+        return word(a) && word(b);
+    }
+    if let Some(v) = l.strip_prefix('x') {
+        return hex4(v);
+    }
+    if let Some(v) = l.strip_prefix("PC x") {
+        return hex4(v);
+    }
+    if let Some(v) = l.strip_prefix("CC ") {
+        return v.len() == 3 && v.bytes().all(|b| b == b'0' || b == b'1');
+    }
+    if l.len() == 8 && l.starts_with('R') && l.as_bytes()[1].is_ascii_digit() && &l[2..4] == " x" {
+        return hex4(&l[4..]);
+    }
+    if l.starts_with('[') && l.ends_with(']') {
+        return true;
+    }
+    if let Some(v) = l.strip_prefix(".fill x") {
+        return hex4(v);
+    }
+    false
+}
 
 /// Non-empty stderr lines, without the runtime's own (unmodelled) messages; help text is
 /// collapsed to `<help>`; what `eval` prints between its `[@e]` … `[@/e]` markers is kept when it
@@ -447,9 +471,6 @@ pub fn stderr_lines(err: &[u8]) -> Vec<String> {
         }
         let l = raw.trim_end_matches('\r');
         if l.trim().is_empty() {
-            continue;
-        }
-        if RUNTIME_NOISE.iter().any(|p| l.trim_start().starts_with(p)) {
             continue;
         }
         if let Some(seg) = &mut in_eval {
@@ -493,10 +514,18 @@ pub fn stderr_lines(err: &[u8]) -> Vec<String> {
         if in_help {
             continue;
         }
+        // everything else the debugger itself prints in `--minimal` mode has a fixed shape; free
+        // text (the runtime's own messages in whatever wording: exceptions, end of input, reserved
+        // instruction, history-file warnings) is not part of any property and is not compared
+        if !is_debugger_line(l) {
+            continue;
+        }
         out.push(l.to_string());
     }
-    // a session that ended inside a bracket (exit from `eval getc` at end of input, panic)
-    if let Some(seg) = in_eval {
+    // a session that ended inside a bracket (exit from `eval getc` at end of input, panic): what
+    // the runtime said on its way out is free text
+    if let Some(mut seg) = in_eval {
+        seg.retain(|x| is_debugger_line(x));
         if !seg.is_empty() {
             if seg.iter().all(|x| x.starts_with("DisallowedInstruction::")) {
                 out.extend(seg);
